@@ -150,6 +150,15 @@ type Program struct {
 	// generated file, which must carry the constraint over -, e.g. loop
 	// variables shared by all iterations below go1.22.
 	GoTag string `json:"go_tag,omitempty"`
+	// ConstConc > 0: the argument of cff.Concurrency is the package-level
+	// constant concK, declared twice: in a file tagged cff (what the generator
+	// sees: another value) and in a file tagged !cff (what the program is built
+	// with: ConstConc). The limit in force is the one of the build - a generator
+	// that folds the constant freezes the other value.
+	ConstConc int `json:"const_conc,omitempty"`
+	// ConstCOE: likewise for cff.ContinueOnError(coeK). 1: false under the cff
+	// tag and true in the build; 2: the other way round.
+	ConstCOE int `json:"const_coe,omitempty"`
 	// Base is the import path of the program's package (set by Files); programs
 	// with imported functions have helper packages Base/ha, Base/hb, Base/hc.
 	Base string `json:"-"`
